@@ -101,7 +101,7 @@ def shrink(d, lines, budget=250, run=None):
     run = run or run_prog
 
     def bad(ls):
-        v, _, err = run(d, "\n".join(ls) + "\n", tag="shrink", timeout=120)
+        v, _, err = run(d, "\n".join(ls) + "\n", tag="shrink", timeout=60)
         if err:
             return True   # harness died on it: still a failing input
         return bool(mismatching(v))
@@ -194,7 +194,7 @@ def run_family(ctx, pid, make_cases, rule, extra_tb=None, assumptions=None, corp
         cases = make_cases(ctx.tier, ctx.seed)
         texts.append(("generated", "".join(c.text() for c in cases)))
         for tag, text in texts:
-            v, trace, err = run(d, text, tag="main", timeout=1500)
+            v, trace, err = run(d, text, tag="main", timeout=(300 if ctx.tier == "quick" else 2400))
             st = stats(trace)
             nsteps += st[0]
             cmds.update(st[1])
